@@ -532,7 +532,7 @@ func init() {
 			return out != "bad-op" && out != "err-new" && !strings.HasPrefix(line, "dec new")
 		},
 		NoShrink: true,
-		Rule: "sanity: all (p,s) in -3..42 squared plus far values; format and round trip: every accepted pair 0<=s<=p<=38 x {0, +-1, +-10^k, +-(10^k-1) for k=0..p (10^p is the first value outside the precision)} plus random values below 10^p; String() on values with more digits than the precision and with Scale > Precision set through the exported fields (panic expected); parse: random numerals built for a random pair (sign -,+ or none; integer part fitting p-s, one digit too long or much too long, with leading zeros; fraction mostly <= s digits, sometimes longer, with trailing zeros (also beyond the scale, which must still parse); optional point; leading/trailing ASCII and Unicode white space), a quarter of them mutated by inserting/replacing garbage (letters, second point, signs, inner spaces, non-ASCII digits, near-space runes); a fixed malformed list x 7 pairs; every Unicode space and 18 near-space runes around and inside 1.5; digit strings of 37..5000 characters; all strings over {0,1,5,.,-,+,space} up to length 4 (quick) / 6 (thorough). Non-trivial = every case that reaches String or SetString on a constructed decimal (everything except the sanity-only and rejected-construction lines).",
+		Rule:     "sanity: all (p,s) in -3..42 squared plus far values; format and round trip: every accepted pair 0<=s<=p<=38 x {0, +-1, +-10^k, +-(10^k-1) for k=0..p (10^p is the first value outside the precision)} plus random values below 10^p; String() on values with more digits than the precision and with Scale > Precision set through the exported fields (panic expected); parse: random numerals built for a random pair (sign -,+ or none; integer part fitting p-s, one digit too long or much too long, with leading zeros; fraction mostly <= s digits, sometimes longer, with trailing zeros (also beyond the scale, which must still parse); optional point; leading/trailing ASCII and Unicode white space), a quarter of them mutated by inserting/replacing garbage (letters, second point, signs, inner spaces, non-ASCII digits, near-space runes); a fixed malformed list x 7 pairs; every Unicode space and 18 near-space runes around and inside 1.5; digit strings of 37..5000 characters; all strings over {0,1,5,.,-,+,space} up to length 4 (quick) / 6 (thorough). Non-trivial = every case that reaches String or SetString on a constructed decimal (everything except the sanity-only and rejected-construction lines).",
 		Assumptions: []string{
 			"text arguments are valid UTF-8 (Go runes = Lean Char); invalid UTF-8 is answered bad-op on both sides and is not generated",
 			"Go standard library behaviour restated in the model (strings.TrimSpace/Split/Trim/TrimLeft/TrimRight, big.Int.SetString base 10, big.Int %0Ns formatting, string slicing) is tied to the real functions by this correspondence run only",
